@@ -5,7 +5,8 @@
 # expects exit 1 from the check.
 set -u
 ID=$1; DIFF=$2; shift 2
-WT=/dev/shm/wt-redis-st-$$
+WT=/dev/shm/wt-redis-st   # fixed path: unchanged packages stay in the build cache
+git -C /repo worktree remove --force "$WT" >/dev/null 2>&1
 export GOFLAGS=-mod=mod GOPROXY=off GOSUMDB=off GOTOOLCHAIN=local
 git -C /repo worktree add --detach "$WT" HEAD >/dev/null 2>&1 || exit 2
 trap 'git -C /repo worktree remove --force "$WT" >/dev/null 2>&1' EXIT
